@@ -107,11 +107,11 @@ Lemma close_protos_eq f c l ps : forall i s t,
   pending s = Some t ->
   close_protos (closef_of f c) l i ps s =
     ({| blocked := blocked s; pending := Some (t ++ all_tasks i ps);
-        calls := calls s + count_dm ps; fwd := fwd s; lis := lis s; queue := queue s |},
+        calls := calls s + count_dm ps; fwd := fwd s; lis := lis s; queue := queue s; lstn := lstn s |},
      protos_obs l i ps (calls s)).
 Proof.
   induction ps as [|p ps IH]; intros i s t H.
-  - simpl. destruct s as [b pe cs fw li qu]. simpl in *. subst pe.
+  - simpl. destruct s as [b pe cs fw li qu ls]. simpl in *. subst pe.
     now rewrite app_nil_r, Nat.add_0_r.
   - cbn [close_protos protos_obs all_tasks]. unfold count_dm. cbn [filter].
     destruct (dmaplike p) eqn:D.
@@ -127,16 +127,16 @@ Proof.
       now rewrite <- app_assoc.
 Qed.
 
-Definition close_block (c : cfg) (cs : nat) : list obs :=
-  map UpdStop (seq 0 (length (protos c))) ++ SessClose :: protos_obs (lst c) 0 (protos c) cs.
+Definition close_block (c : cfg) (l : lkind) (cs : nat) : list obs :=
+  map UpdStop (seq 0 (length (protos c))) ++ SessClose :: protos_obs l 0 (protos c) cs.
 
-Definition closed_state (c : cfg) (cs : nat) (q : list qitem) : st :=
+Definition closed_state (c : cfg) (cs : nat) (q : list qitem) (l : lkind) : st :=
   {| blocked := true; pending := Some (full_set c); calls := cs + count_dm (protos c);
-     fwd := false; lis := false; queue := q |}.
+     fwd := false; lis := false; queue := q; lstn := l |}.
 
 Lemma close_open f c s :
   pending s = None -> blocked s = false ->
-  close_f (S f) c s = (closed_state c (calls s) (queue s), close_block c (calls s), RTasks (full_set c)).
+  close_f (S f) c s = (closed_state c (calls s) (queue s) (lstn s), close_block c (lstn s) (calls s), RTasks (full_set c)).
 Proof.
   intros P B. cbn [close_f]. rewrite P, B.
   change (fun x : st => let '(a, b, _) := close_f f c x in (a, b)) with (closef_of f c).
@@ -179,15 +179,15 @@ Definition close_calls (c : cfg) : list obs :=
   let n := length (protos c) in
   map UpdStop (seq 0 n) ++ SessClose :: map ProtoClose (seq 0 n).
 
-Lemma calls_only_close_block c cs : calls_only (close_block c cs) = close_calls c.
+Lemma calls_only_close_block c l cs : calls_only (close_block c l cs) = close_calls c.
 Proof.
   unfold close_block, close_calls. rewrite calls_only_app, calls_only_map_stop.
   f_equal. simpl. f_equal. apply calls_only_protos_obs.
 Qed.
 
-Lemma notifs_close_block c cs :
-  notifs (close_block c cs) =
-    if cs =? 0 then match lst c with LLive => firstn 1 (repeat NClosed (count_dm (protos c))) | _ => [] end
+Lemma notifs_close_block c l cs :
+  notifs (close_block c l cs) =
+    if cs =? 0 then match l with LLive => firstn 1 (repeat NClosed (count_dm (protos c))) | _ => [] end
     else [].
 Proof.
   unfold close_block. rewrite notifs_app, notifs_map_stop. simpl.
@@ -206,14 +206,14 @@ Definition good (c : cfg) (s : st) : Prop := is_open s \/ is_closed c s.
 Lemma init_open : is_open init.
 Proof. repeat split. Qed.
 
-Lemma closed_state_closed c cs q : is_closed c (closed_state c cs q).
+Lemma closed_state_closed c cs q l : is_closed c (closed_state c cs q l).
 Proof. repeat split. Qed.
 
 Definition closedb (s : st) : bool := match pending s with Some _ => true | None => false end.
 
 (* what a report does once the device object is closed *)
 Lemma report_closed c s k :
-  is_closed c s -> report c s k = (set_calls s (S (calls s)), live_note (lst c) (calls s) k).
+  is_closed c s -> report c s k = (set_calls s (S (calls s)), live_note (lstn s) (calls s) k).
 Proof.
   intros (_ & P & _). unfold report, close.
   change (fun x : st => let '(a, b, _) := close_f 2 c x in (a, b)) with (closef_of 2 c).
@@ -223,20 +223,20 @@ Qed.
 (* what the first report does to an open device object *)
 Lemma report_open c s k :
   is_open s ->
-  report c s k = (closed_state c 1 (queue s),
-                  close_block c 1 ++ match lst c with LLive => [Notify k] | _ => [] end).
+  report c s k = (closed_state c 1 (queue s) (lstn s),
+                  close_block c (lstn s) 1 ++ match lstn s with LLive => [Notify k] | _ => [] end).
 Proof.
   intros (B & P & C). unfold report, report_with, max_calls. cbv zeta.
   assert (E : close c (set_calls s (S (calls s))) =
-              (closed_state c 1 (queue s), close_block c 1, RTasks (full_set c))).
+              (closed_state c 1 (queue s) (lstn s), close_block c (lstn s) 1, RTasks (full_set c))).
   { unfold close. rewrite (close_open 1 c (set_calls s (S (calls s))) P B). simpl calls. now rewrite C. }
   simpl calls. rewrite C. change (1 <? 1) with false. cbv iota.
   rewrite C in E. rewrite E.
-  destruct (lst c); try reflexivity; now rewrite app_nil_r.
+  destruct (lstn s); try reflexivity; now rewrite app_nil_r.
 Qed.
 
 Lemma close_of_open c s :
-  is_open s -> close c s = (closed_state c 0 (queue s), close_block c 0, RTasks (full_set c)).
+  is_open s -> close c s = (closed_state c 0 (queue s) (lstn s), close_block c (lstn s) 0, RTasks (full_set c)).
 Proof.
   intros (B & P & C). unfold close. rewrite (close_open 1 c s P B). now rewrite C.
 Qed.
@@ -249,17 +249,18 @@ Proof. intros (_ & P & _). unfold close. simpl. now rewrite P. Qed.
 Lemma step_open c s e :
   is_open s ->
   match e with
-  | Lost i x => step c s e = (closed_state c 1 (queue s),
-                  close_block c 1 ++ match lst c with LLive => [Notify (NLost i x)] | _ => [] end, RNone)
-  | Closed i => step c s e = (closed_state c 1 (queue s),
-                  close_block c 1 ++ match lst c with LLive => [Notify NClosed] | _ => [] end, RNone)
-  | UserClose => step c s e = (closed_state c 0 (queue s), close_block c 0, RTasks (full_set c))
+  | Lost i x => step c s e = (closed_state c 1 (queue s) (lstn s),
+                  close_block c (lstn s) 1 ++ match lstn s with LLive => [Notify (NLost i x)] | _ => [] end, RNone)
+  | Closed i => step c s e = (closed_state c 1 (queue s) (lstn s),
+                  close_block c (lstn s) 1 ++ match lstn s with LLive => [Notify NClosed] | _ => [] end, RNone)
+  | UserClose => step c s e = (closed_state c 0 (queue s) (lstn s), close_block c (lstn s) 0, RTasks (full_set c))
   | Api m => step c s e = (s, [], match nth_error members m with Some _ => ROk | None => RNone end)
   | PushStart => step c s e = (set_push s true, map UpdStart (seq 0 (length (protos c))), ROk)
   | PushStop => step c s e = (set_push s false, map UpdStop (seq 0 (length (protos c))), ROk)
   | PostPlay i => step c s e = (schedule s false i, [], RNone)
   | PostErr i => step c s e = (schedule s true i, [], RNone)
   | RunLoop => step c s e = (set_queue s [], flat_map (deliver_q c s) (queue s), RNone)
+  | SetListener l => step c s e = (set_lstn s l, [], RNone)
   end.
 Proof.
   intro O. pose proof O as (B & P & C). destruct e; simpl; try reflexivity.
@@ -275,8 +276,8 @@ Qed.
 Lemma step_closed c s e :
   is_closed c s ->
   match e with
-  | Lost i x => step c s e = (set_calls s (S (calls s)), live_note (lst c) (calls s) (NLost i x), RNone)
-  | Closed i => step c s e = (set_calls s (S (calls s)), live_note (lst c) (calls s) NClosed, RNone)
+  | Lost i x => step c s e = (set_calls s (S (calls s)), live_note (lstn s) (calls s) (NLost i x), RNone)
+  | Closed i => step c s e = (set_calls s (S (calls s)), live_note (lstn s) (calls s) NClosed, RNone)
   | UserClose => step c s e = (s, [], RTasks (full_set c))
   | Api m => step c s e = (s, [], match nth_error members m with
                                   | Some mem => if protected mem then RBlocked else ROk
@@ -285,6 +286,7 @@ Lemma step_closed c s e :
   | PostPlay i => step c s e = (schedule s false i, [], RNone)
   | PostErr i => step c s e = (schedule s true i, [], RNone)
   | RunLoop => step c s e = (set_queue s [], [], RNone)      (* whatever was scheduled: nothing is delivered *)
+  | SetListener l => step c s e = (set_lstn s l, [], RNone)
   end.
 Proof.
   intro K. pose proof K as (B & P & F). destruct e; simpl; try reflexivity.
@@ -306,6 +308,10 @@ Lemma set_queue_open s q : is_open s -> is_open (set_queue s q).
 Proof. intros (B & P & C). repeat split; assumption. Qed.
 Lemma schedule_open s e i : is_open s -> is_open (schedule s e i).
 Proof. apply set_queue_open. Qed.
+Lemma set_lstn_open s l : is_open s -> is_open (set_lstn s l).
+Proof. intros (B & P & C). repeat split; assumption. Qed.
+Lemma set_lstn_closed c s l : is_closed c s -> is_closed c (set_lstn s l).
+Proof. intros (B & P & F). repeat split; assumption. Qed.
 Lemma set_queue_closed c s q : is_closed c s -> is_closed c (set_queue s q).
 Proof. intros (B & P & F). repeat split; assumption. Qed.
 Lemma schedule_closed c s e i : is_closed c s -> is_closed c (schedule s e i).
@@ -318,10 +324,10 @@ Proof.
   intros [O | K].
   - pose proof (step_open c s e O) as H. destruct e; rewrite H; simpl;
       try (right; apply closed_state_closed); try (left; assumption);
-      left; first [now apply set_push_open | now apply schedule_open | now apply set_queue_open].
+      left; first [now apply set_push_open | now apply schedule_open | now apply set_queue_open | now apply set_lstn_open].
   - pose proof (step_closed c s e K) as H. right. destruct e; rewrite H; simpl;
       try assumption;
-      first [now apply set_calls_closed | now apply schedule_closed | now apply set_queue_closed].
+      first [now apply set_calls_closed | now apply schedule_closed | now apply set_queue_closed | now apply set_lstn_closed].
 Qed.
 
 Lemma step_closing c s e :
@@ -339,7 +345,7 @@ Lemma step_closed_stays c s e : is_closed c s -> is_closed c (fst (fst (step c s
 Proof.
   intro K. pose proof (step_closed c s e K) as H. destruct e; rewrite H; simpl;
     try assumption;
-    first [now apply set_calls_closed | now apply schedule_closed | now apply set_queue_closed].
+    first [now apply set_calls_closed | now apply schedule_closed | now apply set_queue_closed | now apply set_lstn_closed].
 Qed.
 
 (* ---- run / final / trace plumbing ------------------------------------------------------ *)
@@ -393,11 +399,8 @@ Qed.
 
 (* ---- notifications: at most one, the first one reported ---------------------------------- *)
 
-Definition expected (c : cfg) (closed : bool) (h : list ev) : list notif :=
-  match lst c with
-  | LLive => firstn 1 (reported (count_dm (protos c)) closed h)
-  | _ => []
-  end.
+Definition expected (c : cfg) (l : lkind) (closed : bool) (h : list ev) : list notif :=
+  heard (reported (count_dm (protos c)) closed l h).
 
 Lemma notifs_live_note l cs k :
   notifs (live_note l cs k) = if cs =? 0 then match l with LLive => [k] | _ => [] end else [].
@@ -405,19 +408,20 @@ Proof. unfold live_note. destruct (cs =? 0); [destruct l|]; reflexivity. Qed.
 
 Lemma notifs_closed c : forall h s,
   is_closed c s ->
-  notifs (trace c s h) = if calls s =? 0 then expected c true h else [].
+  notifs (trace c s h) = if calls s =? 0 then expected c (lstn s) true h else [].
 Proof.
   induction h as [|e h IH]; intros s K.
-  - unfold expected. simpl. destruct (calls s =? 0); [destruct (lst c)|]; reflexivity.
+  - unfold expected. simpl. destruct (calls s =? 0); [destruct (lstn s)|]; reflexivity.
   - rewrite trace_cons, notifs_app.
     pose proof (step_closed c s e K) as H.
     pose proof (step_closed_stays c s e K) as K'.
     specialize (IH _ K').
     destruct e; rewrite H in *; simpl fst in *; simpl snd in *; rewrite IH; clear IH.
     + rewrite notifs_live_note. simpl calls. unfold expected.
-      destruct (calls s =? 0); [|reflexivity]. destruct (lst c); reflexivity.
+      destruct (calls s =? 0); [|reflexivity]. destruct (lstn s); reflexivity.
     + rewrite notifs_live_note. simpl calls. unfold expected.
-      destruct (calls s =? 0); [|reflexivity]. destruct (lst c); reflexivity.
+      destruct (calls s =? 0); [|reflexivity]. destruct (lstn s); reflexivity.
+    + reflexivity.
     + reflexivity.
     + reflexivity.
     + reflexivity.
@@ -432,28 +436,29 @@ Lemma firstn1_repeat_app {A} (x : A) n l :
 Proof. destruct n; reflexivity. Qed.
 
 Lemma notifs_open c : forall h s,
-  is_open s -> notifs (trace c s h) = expected c false h.
+  is_open s -> notifs (trace c s h) = expected c (lstn s) false h.
 Proof.
   induction h as [|e h IH]; intros s O.
-  - unfold expected. destruct (lst c); reflexivity.
+  - unfold expected. destruct (lstn s); reflexivity.
   - rewrite trace_cons, notifs_app.
     pose proof (step_open c s e O) as H.
     destruct e; rewrite H; simpl fst; simpl snd.
-    + rewrite (notifs_closed c h _ (closed_state_closed c 1 _)). simpl.
+    + rewrite (notifs_closed c h _ (closed_state_closed c 1 _ _)). simpl.
       rewrite notifs_app, notifs_close_block. simpl. unfold expected.
-      destruct (lst c); reflexivity.
-    + rewrite (notifs_closed c h _ (closed_state_closed c 1 _)). simpl.
+      destruct (lstn s); reflexivity.
+    + rewrite (notifs_closed c h _ (closed_state_closed c 1 _ _)). simpl.
       rewrite notifs_app, notifs_close_block. simpl. unfold expected.
-      destruct (lst c); reflexivity.
-    + rewrite (notifs_closed c h _ (closed_state_closed c 0 _)). simpl calls.
+      destruct (lstn s); reflexivity.
+    + rewrite (notifs_closed c h _ (closed_state_closed c 0 _ _)). simpl calls.
       rewrite notifs_close_block. simpl. unfold expected. simpl reported.
-      destruct (lst c); destruct (count_dm (protos c)) as [|n]; reflexivity.
+      destruct (lstn s); destruct (count_dm (protos c)) as [|n]; reflexivity.
     + simpl. now apply IH.
     + rewrite notifs_map_start. simpl. apply IH. now apply set_push_open.
     + rewrite notifs_map_stop. simpl. apply IH. now apply set_push_open.
     + simpl. apply IH. now apply schedule_open.
     + simpl. apply IH. now apply schedule_open.
     + rewrite notifs_drain. simpl. apply IH. now apply set_queue_open.
+    + simpl. rewrite IH by now apply set_lstn_open. reflexivity.
 Qed.
 
 (* ---- after close: blocked, silent, idempotent ---------------------------------------------- *)
@@ -468,6 +473,7 @@ Definition ok_after (c : cfg) (x : ev * (list obs * res)) : Prop :=
   | Lost _ _ | Closed _ => calls_only o = [] /\ r = RNone
   | PostPlay _ | PostErr _ => o = [] /\ r = RNone
   | RunLoop => o = [] /\ r = RNone        (* nothing reaches the push listener, whatever was scheduled *)
+  | SetListener _ => o = [] /\ r = RNone
   end.
 
 Lemma after_close c : forall h s,
@@ -476,8 +482,8 @@ Proof.
   induction h as [|e h IH]; intros s K; [constructor|].
   rewrite run_cons. simpl combine. constructor.
   - pose proof (step_closed c s e K) as H. destruct e; rewrite H; simpl; split; try reflexivity.
-    + unfold live_note. destruct (calls s =? 0); [destruct (lst c)|]; reflexivity.
-    + unfold live_note. destruct (calls s =? 0); [destruct (lst c)|]; reflexivity.
+    + unfold live_note. destruct (calls s =? 0); [destruct (lstn s)|]; reflexivity.
+    + unfold live_note. destruct (calls s =? 0); [destruct (lstn s)|]; reflexivity.
     + intros mem E P. rewrite E, P. reflexivity.
   - apply IH. now apply step_closed_stays.
 Qed.
@@ -487,7 +493,7 @@ Proof.
   induction h as [|e h IH]; intros s K; [reflexivity|].
   rewrite trace_cons, calls_only_app, (IH _ (step_closed_stays c s e K)), app_nil_r.
   pose proof (step_closed c s e K) as H. destruct e; rewrite H; simpl; try reflexivity;
-    unfold live_note; destruct (calls s =? 0); try reflexivity; destruct (lst c); reflexivity.
+    unfold live_note; destruct (calls s =? 0); try reflexivity; destruct (lstn s); reflexivity.
 Qed.
 
 (* all calls to collaborators over a whole history: updater start/stop while open, then
@@ -503,13 +509,13 @@ Proof.
     pose proof (step_open c s e O) as H.
     destruct e; rewrite H; simpl fst; simpl snd.
     + exists []. split; [reflexivity|]. right.
-      rewrite (calls_only_closed c h _ (closed_state_closed c 1 _)), app_nil_r.
-      rewrite calls_only_app, calls_only_close_block. destruct (lst c); simpl; now rewrite app_nil_r.
+      rewrite (calls_only_closed c h _ (closed_state_closed c 1 _ _)), app_nil_r.
+      rewrite calls_only_app, calls_only_close_block. destruct (lstn s); simpl; now rewrite app_nil_r.
     + exists []. split; [reflexivity|]. right.
-      rewrite (calls_only_closed c h _ (closed_state_closed c 1 _)), app_nil_r.
-      rewrite calls_only_app, calls_only_close_block. destruct (lst c); simpl; now rewrite app_nil_r.
+      rewrite (calls_only_closed c h _ (closed_state_closed c 1 _ _)), app_nil_r.
+      rewrite calls_only_app, calls_only_close_block. destruct (lstn s); simpl; now rewrite app_nil_r.
     + exists []. split; [reflexivity|]. right.
-      rewrite (calls_only_closed c h _ (closed_state_closed c 0 _)), app_nil_r.
+      rewrite (calls_only_closed c h _ (closed_state_closed c 0 _ _)), app_nil_r.
       apply calls_only_close_block.
     + simpl. now apply IH.
     + destruct (IH _ (set_push_open s true O)) as (pre & U & D).
@@ -529,6 +535,7 @@ Proof.
       * rewrite forallb_app, pre_drain, U. reflexivity.
       * rewrite calls_only_drain. destruct D as [D | D]; rewrite D; [now left | right].
         now rewrite app_assoc.
+    + simpl. apply IH. now apply set_lstn_open.
 Qed.
 
 (* every user close returns the same, complete task set *)
